@@ -29,7 +29,10 @@ type Expect struct {
 	HasFail bool `json:"hasfail,omitempty"` // some element may fail
 	// C08
 	Drop   bool   `json:"drop,omitempty"`
-	Need   int    `json:"need,omitempty"`   // index of the last source element the consumer needs
+	Need   int    `json:"need,omitempty"`  // index of the last source element the consumer needs
+	Need2  int    `json:"need2,omitempty"` // same for the lazy second operand of cross/merge/+ (probe stage 15); -1 = none at all
+	Has2   bool   `json:"has2,omitempty"`
+	Merge  bool   `json:"merge,omitempty"`  // the pipeline contains merge: its channel producers keep iterating after an early stop (known)
 	S      int    `json:"s,omitempty"`      // lazy stages + 1
 	ParSt  int    `json:"parst,omitempty"`  // stages that may go parallel
 	FailAt int    `json:"failat,omitempty"` // source index of the failing element + 1 (0 = none)
@@ -545,7 +548,10 @@ func execC08(c *Case, sc *Script, o *Obs) {
 		if par {
 			bound = int64(x.Need) + parWindow
 		}
-		if maxP > bound {
+		mergeSig := "C08:demand-unbounded:merge:producers-keep-iterating"
+		if maxP > bound && x.Merge {
+			o.add(name, mergeSig, fmt.Sprintf("closure evaluated for source element %d although the consumer behind merge was decided by element %d (bound %d): the channel producers of merge keep iterating after the consumer stopped", maxP, x.Need, bound))
+		} else if maxP > bound {
 			d := fmt.Sprintf("closure evaluated for source element %d; decisive element %d, allowed read-ahead up to %d (mode %s, W=%d)", maxP, x.Need, bound, mode, w)
 			if par && !x.Fair {
 				o.add(name, unboundedSig, d)
@@ -553,6 +559,25 @@ func execC08(c *Case, sc *Script, o *Obs) {
 				o.add(name, "C08:demand:parallel-fair:"+x.Term, d)
 			} else {
 				o.add(name, "C08:demand:sequential:"+x.Term, d)
+			}
+		}
+		if x.Has2 {
+			max2 := int64(-1)
+			for i := 0; i < h.nProbe; i++ {
+				if h.probeS[i] == 15 && h.probeX[i] > max2 {
+					max2 = h.probeX[i]
+				}
+			}
+			b2 := int64(x.Need2) + window + 2
+			if par {
+				// any map stage - also the one in the second operand - may have switched to
+				// parallel execution (a stalled consumer makes its elements look slow)
+				b2 = int64(x.Need2) + parWindow + 4*w
+			}
+			if max2 > b2 && x.Merge {
+				o.add(name, mergeSig, fmt.Sprintf("closure of the second operand of merge evaluated for its element %d; the consumer needs at most its element %d", max2, x.Need2))
+			} else if max2 > b2 {
+				o.add(name, "C08:demand:second-operand:"+x.Term, fmt.Sprintf("closure of the second operand evaluated for its element %d; the consumer needs at most its element %d (allowed up to %d)", max2, x.Need2, b2))
 			}
 		}
 		got := clientOutcome(r)
